@@ -15,6 +15,8 @@ fn render(doc: &Value, dir: &str, fmt: usize) -> Value {
     let mut top = Map::new();
     if doc["refresh"] == "30s" {
         top.insert("refresh_rate".into(), json!("30 seconds"));
+    } else if doc["refresh"] == "200ms" {
+        top.insert("refresh_rate".into(), json!("200 ms"));
     }
     match dv {
         "refresh_bad" => {
@@ -289,12 +291,24 @@ fn check_format(case: &Value, fmt: usize) -> Option<Value> {
         _ => toml::from_str(&text).map_err(|e| e.to_string()),
     };
     let rr = raw.ok().and_then(|r| r.refresh_rate());
-    let want_rr = if case["refresh"] == "30s" { Some(std::time::Duration::from_secs(30)) } else { None };
+    let want_rr = if case["refresh"] == "30s" { Some(std::time::Duration::from_secs(30)) } else if case["refresh"] == "200ms" { Some(std::time::Duration::from_millis(200)) } else { None };
     if rr != want_rr {
         return fail("refresh rate", json!({"expected": format!("{:?}", want_rr), "actual": format!("{:?}", rr)}));
     }
     let x_variant = case["doc"]["x"].as_str().unwrap();
     let pre = std::fs::read_to_string(scratch.path().join("x.log")).unwrap_or_default();
+    // ... and as the reloading thread adopts it when it finds this document at the path (it has seen another text
+    // before): the rate it goes on with is the document's - none stops it
+    {
+        let logger = log4rs::Logger::new(log4rs::Config::builder().build(log4rs::config::Root::builder().build(log::LevelFilter::Off)).unwrap());
+        match log4rs::config::VerifReloader::new(path.clone().into(), "an earlier text".to_string(), None, mk(), logger.verif_handle()) {
+            Err(e) => return fail("reloader construction failed", json!(e.to_string())),
+            Ok(mut rl) => match catch(|| rl.run_once(std::time::Duration::from_secs(7))) {
+                Ok(Ok(got)) if got == want_rr => {}
+                other => return fail("refresh rate adopted by the reloader", json!({"expected": format!("{:?}", want_rr), "actual": format!("{:?}", other.map(|r| r.map_err(|e| e.to_string())))})),
+            },
+        }
+    }
     if names.contains(&"x".to_string()) && x_variant != "console" {
         let want_pre = if x_variant == "file_trunc" { "" } else { "old\n" };
         if pre != want_pre {
